@@ -127,50 +127,123 @@ pub fn initial_index(n: u64) -> usize {
 // ------------------------------------------------------------------------------------------
 // Model A
 
-pub fn model_a(zero_prefix: u64, data: &[u8]) -> Result<(GenOut, GenStats), GenErr> {
-    let n = zero_prefix
-        .checked_add(data.len() as u64)
-        .ok_or(GenErr::InputSizeTooLarge)?;
-    if n > MAX_INPUT_SIZE {
-        return Err(GenErr::InputSizeTooLarge);
-    }
-    let start = fnv_after_zeros(zero_prefix);
-    let mut whole = start;
-    let mut full = [start; NUM_LEVELS];
-    let mut half = [start; NUM_LEVELS];
-    let mut cnt = [0u64; NUM_LEVELS];
-    let mut pieces: Vec<Vec<u8>> = vec![Vec::new(); NUM_LEVELS];
-    let mut tail_full: [Option<u8>; NUM_LEVELS] = [None; NUM_LEVELS];
-    let mut tail_half: [Option<u8>; NUM_LEVELS] = [None; NUM_LEVELS];
+/// A piece of input: literal bytes or a (possibly huge) run of zero bytes.
+#[derive(Debug, Clone, PartialEq, Eq)]
+pub enum Seg<'a> {
+    Bytes(&'a [u8]),
+    Zeros(u64),
+}
 
-    for (p, &c) in data.iter().enumerate() {
-        whole = fnv_step(whole, c);
+pub fn segs_len(segs: &[Seg]) -> Option<u64> {
+    let mut n: u64 = 0;
+    for s in segs {
+        n = n.checked_add(match s {
+            Seg::Bytes(b) => b.len() as u64,
+            Seg::Zeros(z) => *z,
+        })?;
+    }
+    Some(n)
+}
+
+struct StateA {
+    whole: u32,
+    full: [u32; NUM_LEVELS],
+    half: [u32; NUM_LEVELS],
+    cnt: [u64; NUM_LEVELS],
+    pieces: Vec<Vec<u8>>,
+    tail_full: [Option<u8>; NUM_LEVELS],
+    tail_half: [Option<u8>; NUM_LEVELS],
+    /// the last seven bytes, oldest first
+    window: [u8; 7],
+}
+
+impl StateA {
+    fn byte(&mut self, c: u8) {
+        self.whole = fnv_step(self.whole, c);
         for i in 0..NUM_LEVELS {
-            full[i] = fnv_step(full[i], c);
-            half[i] = fnv_step(half[i], c);
+            self.full[i] = fnv_step(self.full[i], c);
+            self.half[i] = fnv_step(self.half[i], c);
         }
-        let r1 = roll_def(&window_at(data, p)).wrapping_add(1);
+        self.window.copy_within(1..7, 0);
+        self.window[6] = c;
+        let r1 = roll_def(&self.window).wrapping_add(1);
         if r1 == 0 || r1 % 3 != 0 {
-            continue;
+            return;
         }
         let t = core::cmp::min(30, (r1 / 3).trailing_zeros() as usize);
         for i in 0..=t {
-            cnt[i] += 1;
-            if cnt[i] <= 63 {
-                pieces[i].push((full[i] & 63) as u8);
-                full[i] = FNV_INIT;
-                tail_half[i] = Some((half[i] & 63) as u8);
-                if cnt[i] < 32 {
-                    half[i] = FNV_INIT;
-                    tail_half[i] = None;
+            self.cnt[i] += 1;
+            if self.cnt[i] <= 63 {
+                self.pieces[i].push((self.full[i] & 63) as u8);
+                self.full[i] = FNV_INIT;
+                self.tail_half[i] = Some((self.half[i] & 63) as u8);
+                if self.cnt[i] < 32 {
+                    self.half[i] = FNV_INIT;
+                    self.tail_half[i] = None;
                 }
             } else {
-                tail_full[i] = Some((full[i] & 63) as u8);
-                tail_half[i] = Some((half[i] & 63) as u8);
+                self.tail_full[i] = Some((self.full[i] & 63) as u8);
+                self.tail_half[i] = Some((self.half[i] & 63) as u8);
             }
         }
     }
-    let rend = roll_of(data);
+    /// n zero bytes while the window already holds seven zeros: the rolling value is 0,
+    /// 0 + 1 is not a multiple of 3, so no boundary; every FNV state is multiplied by prime^n.
+    fn quiet_zeros(&mut self, n: u64) {
+        debug_assert!(self.window == [0u8; 7]);
+        let m = pow_u32(FNV_PRIME, n);
+        self.whole = self.whole.wrapping_mul(m);
+        for i in 0..NUM_LEVELS {
+            self.full[i] = self.full[i].wrapping_mul(m);
+            self.half[i] = self.half[i].wrapping_mul(m);
+        }
+    }
+}
+
+pub fn model_a_segs(segs: &[Seg]) -> Result<(GenOut, GenStats), GenErr> {
+    let n = segs_len(segs).ok_or(GenErr::InputSizeTooLarge)?;
+    if n > MAX_INPUT_SIZE {
+        return Err(GenErr::InputSizeTooLarge);
+    }
+    let mut s = StateA {
+        whole: FNV_INIT,
+        full: [FNV_INIT; NUM_LEVELS],
+        half: [FNV_INIT; NUM_LEVELS],
+        cnt: [0; NUM_LEVELS],
+        pieces: vec![Vec::new(); NUM_LEVELS],
+        tail_full: [None; NUM_LEVELS],
+        tail_half: [None; NUM_LEVELS],
+        window: [0; 7],
+    };
+    for seg in segs {
+        match seg {
+            Seg::Bytes(b) => {
+                for &c in b.iter() {
+                    s.byte(c);
+                }
+            }
+            Seg::Zeros(z) => {
+                let head = core::cmp::min(*z, 7);
+                for _ in 0..head {
+                    s.byte(0);
+                }
+                if *z > head {
+                    s.quiet_zeros(*z - head);
+                }
+            }
+        }
+    }
+    let StateA {
+        whole,
+        full,
+        half,
+        cnt,
+        pieces,
+        tail_full,
+        tail_half,
+        window,
+    } = s;
+    let rend = roll_def(&window);
     let mut top = 0usize;
     for i in 0..NUM_LEVELS {
         if cnt[i] > 0 {
@@ -227,6 +300,10 @@ pub fn model_a(zero_prefix: u64, data: &[u8]) -> Result<(GenOut, GenStats), GenE
         },
         stats,
     ))
+}
+
+pub fn model_a(zero_prefix: u64, data: &[u8]) -> Result<(GenOut, GenStats), GenErr> {
+    model_a_segs(&[Seg::Zeros(zero_prefix), Seg::Bytes(data)])
 }
 
 // ------------------------------------------------------------------------------------------
@@ -460,6 +537,39 @@ impl ModelB {
         }
     }
 
+    /// `n` zero bytes: the first seven are really fed; after them the window holds only zeros,
+    /// the rolling sum is 0 (0 + 1 is never a boundary), so only the FNV states of the active
+    /// contexts (and lasth) and the size move.
+    pub fn feed_zeros(&mut self, n: u64) {
+        let head = core::cmp::min(n, ROLLING_WINDOW as u64);
+        self.total_size = self.total_size.saturating_add(head);
+        for _ in 0..head {
+            self.step(0);
+        }
+        let rest = n - head;
+        if rest == 0 {
+            return;
+        }
+        assert_eq!(self.roll.sum(), 0);
+        self.total_size = self.total_size.saturating_add(rest);
+        let m = pow_u32(FNV_PRIME, rest);
+        for i in self.bhstart..self.bhend {
+            self.bh[i].h = self.bh[i].h.wrapping_mul(m);
+            self.bh[i].halfh = self.bh[i].halfh.wrapping_mul(m);
+        }
+        if let Some(l) = self.lasth {
+            self.lasth = Some(l.wrapping_mul(m));
+        }
+        self.roll.n = ((self.roll.n as u64 + rest % ROLLING_WINDOW as u64) % ROLLING_WINDOW as u64) as u32;
+    }
+
+    pub fn feed(&mut self, seg: &Seg) {
+        match seg {
+            Seg::Bytes(b) => self.update(b),
+            Seg::Zeros(z) => self.feed_zeros(*z),
+        }
+    }
+
     pub fn stats(&self) -> (u8, bool) {
         (self.bhstart as u8, self.lasth.is_some())
     }
@@ -570,7 +680,40 @@ pub fn model_b(zero_prefix: u64, data: &[u8], fixed: Option<u64>) -> Result<(Gen
     m.digest()
 }
 
+pub fn model_b_segs(segs: &[Seg], fixed: Option<u64>) -> Result<(GenOut, GenStats), GenErr> {
+    let mut m = ModelB::new();
+    if let Some(f) = fixed {
+        let _ = m.set_total_input_length(f);
+    }
+    for s in segs {
+        m.feed(s);
+    }
+    m.digest()
+}
+
 /// Render as ssdeep text.
 pub fn to_text(log: u8, bh1: &[u8], bh2: &[u8]) -> String {
     crate::fmt::format_hash(log, bh1, bh2)
+}
+
+/// Positions (index of the byte that caused it) where model B eliminated a level, and
+/// positions of piece boundaries at level >= `min_level`.
+pub fn interesting_positions(data: &[u8], min_level: u8) -> (Vec<usize>, Vec<usize>) {
+    let mut m = ModelB::new();
+    let mut elim = Vec::new();
+    let mut bounds = Vec::new();
+    let mut last = 0usize;
+    for (p, &c) in data.iter().enumerate() {
+        m.total_size += 1;
+        m.step(c);
+        if m.bhstart != last {
+            last = m.bhstart;
+            elim.push(p);
+        }
+        let r1 = m.roll.sum().wrapping_add(1);
+        if r1 != 0 && r1 % 3 == 0 && (r1 / 3).trailing_zeros() >= min_level as u32 {
+            bounds.push(p);
+        }
+    }
+    (elim, bounds)
 }
